@@ -16,6 +16,7 @@ mod quant;
 mod rej;
 mod zigacc;
 mod ftree;
+mod btpe;
 
 fn main() {
     util::install_quiet_panic_hook();
@@ -65,6 +66,7 @@ fn main() {
         "rej-drive" => rej::drive(rest),
         "zigacc-drive" => zigacc::drive(rest),
         "ftree-drive" => ftree::drive(rest),
+        "btpe-drive" => btpe::drive(rest),
         "tree-drive-floats" => tree::drive_floats(rest),
         _ => { eprintln!("unknown subcommand {:?}", cmd); 2 }
     };
